@@ -121,7 +121,6 @@ func runC04(c *Ctx) error {
 	fam := c.Rep.Family("apk-segment-model", fmt.Sprintf("model of apk.writeTgz (Arc.tgzStream with the reviewed statement skeleton and the 4096-byte bufio model) vs every gzip segment of every apk built by the families above: the decompressed segment S is walked block by block to the end E of the last member's data, and tgzstream(full = data segment, pad = (512 - E mod 512) mod 512, [S[:E]]) must equal S byte for byte (cut segments lose exactly the end-of-archive marker, the data segment is a complete tar); segments above %d KiB are not sent through the byte-list model and are counted as skipped; a difference is the finding apk:segment-differs-from-model; non-trivial = segment compared", e.segCap>>10))
 	fam.Evaluations = seg.Compared + seg.Skipped
 	fam.Nontrivial = seg.Compared
-	fam.Count("apk-packages")
 	fam.Distribution["apk-packages"] = seg.Packages
 	fam.Distribution["segments-compared"] = seg.Compared
 	fam.Distribution["segments-skipped-too-large"] = seg.Skipped
